@@ -339,6 +339,13 @@ impl Node {
                     }
                 }
             }
+            // whatever accounting is left (eviction rounding, tasks that never ran): a new process starts at 0
+            if let Some(t) = server::streaming::cache::memory_tracker::CacheMemoryTracker::get_instance() {
+                let left = t.usage_bytes().as_bytes_u64();
+                if left > 0 {
+                    t.decrement_used_memory(left);
+                }
+            }
         });
     }
 
